@@ -132,7 +132,7 @@ def run_one(name, only_props=None):
             if only_props and pid not in only_props:
                 continue
             t0 = time.time()
-            r = sh(f"cd {VERIF} && ./check {pid} quick")
+            r = sh(f"cd {VERIF} && VERIF_REPLAYS_DIR={VERIF}/.work/planted/replays VERIF_EVIDENCE_DIR={VERIF}/.work/planted/evidence ./check {pid} quick")
             caught = "VIOLATION property=" + pid in r.stdout
             res["props"][pid] = ("caught" if caught else f"MISSED rc={r.returncode}") + f" {time.time() - t0:.0f}s"
             if not caught:
